@@ -98,6 +98,7 @@ def build_rto_target(c):
         Pinv = c["gmrf_prec"] * D.T @ D
     ys, parts = [], []
     shared = None
+    shared_applied = None
     for i, lk in enumerate(c["liks"]):
         Am = A(lk["A"])
         m = lk["m"]
@@ -111,7 +112,13 @@ def build_rto_target(c):
         nkw, Se = c15.form_arg(lk["form"], lk["var"], lk["G"])
         if c.get("int_vars") and lk["form"] == "cov_vector":
             nkw = {"cov": np.array([int(v) for v in lk["var"]])}
-        ys.append(cuqi.distribution.Gaussian(model(x), **nkw, geometry=m, name=f"y{i}"))
+        # (the forward model applied to x is built once and re-used when the likelihoods share it: one model object, several data sets)
+        if c.get("shared_model") and shared_applied is not None:
+            Ax = shared_applied
+        else:
+            Ax = model(x)
+        shared_applied = Ax
+        ys.append(cuqi.distribution.Gaussian(Ax, **nkw, geometry=m, name=f"y{i}"))
         parts.append((Am, np.linalg.inv(Se), A(lk["data"])))
     J = cuqi.distribution.JointDistribution(*ys, x)
     target = J(**{f"y{i}": A(lk["data"]) for i, lk in enumerate(c["liks"])})
